@@ -14,7 +14,9 @@ ALLOWED_AXIOMS = {
 
 def ensure_build():
     """(Re)build the Coq development and the extracted model if anything is stale."""
-    p = subprocess.run(["make", "-C", VERIF, "all"], capture_output=True, text=True, timeout=3000)
+    os.makedirs(os.path.join(VERIF, "build"), exist_ok=True)
+    p = subprocess.run(["flock", os.path.join(VERIF, "build", ".buildlock"), "make", "-C", VERIF, "all"],
+                       capture_output=True, text=True, timeout=3000)
     if p.returncode != 0:
         return False, (p.stdout + p.stderr)[-3000:]
     return True, ""
